@@ -870,6 +870,10 @@ def readers_family(run, replay):
                 f.write(json.dumps(hdr["model_case"]) + "\n")
             vk.run_driver(run, ["split-replay", "--prop", "C02", "--cases", cp, "--out", p], p)
             r = vk.validate_trace(run, p, "TraceDocs.tla", cfg)
+        elif "-sweep-" in case:
+            # a case of the systematic sweep: the whole sweep is re-run (a few seconds)
+            vk.run_driver(run, ["readers", "--seed", "1", "--from", "0", "--to", "0", "--sweep", "--sweepmod", "1", "--sweepidx", "0", "--out", p], p, timeout=3000)
+            r = vk.validate_trace(run, p, "TraceDocs.tla", cfg)
         else:
             parts = case.split("-")
             seed, k = int(parts[1][1:]), int(parts[2][1:])
@@ -1056,3 +1060,51 @@ def cli_stage(run, prop, spec, cfg):
     res = sharded(run, "cli", prop, n, spec, cfg, extra_args=["--prop", prop, "--gotree", gotree, "--maxtips", "10"], tag="cli", timeout=3000)
     run.extra["cli_commands_run"] = sum(r["summary"].get("commands_run", 0) for r in res)
     return res
+
+
+# ------------------------------------------------------------------------------------------------
+# replay of a TLC-emitted model case stored in a replay header (any family)
+
+def replay_model_case(run, hdr):
+    label = hdr.get("case", "")
+    parts = label.split("-")
+    tag = parts[1] if len(parts) == 3 else "case"
+    prop = run.prop
+    edit = ("replay-edit", "TraceEdit.tla", TRACE_CFG % ('"%s"' % prop, "TRUE"))
+    calc = ("replay-calc", "TraceCalc.tla", CALC_CFG % ('"%s"' % prop))
+    table = {"case2": edit, "splitcase": ("split-replay", "TraceDocs.tla", DOCS_TRACE_CFG % ('"%s"' % prop)),
+             "nexuscase": ("nexus-replay", "TraceDocs.tla", DOCS_TRACE_CFG % ('"%s"' % prop))}
+    default = {"C03": edit, "C05": edit, "C06": edit, "C07": edit, "C15": edit, "C17": edit,
+               "C01": ("nw-replay", "TraceNewick.tla", NEWICK_TRACE_CFG % '"C01"'), "C02": ("nw-replay", "TraceNewick.tla", NEWICK_TRACE_CFG % '"C02"'),
+               "C11": ("pool-replay", "TracePool.tla", POOL_TRACE_CFG)}
+    driver, spec, cfg = table.get(tag) or default.get(prop, calc)
+    cp = os.path.join(run.work, "cases-replay.ndjson")
+    with open(cp, "w") as f:
+        f.write(json.dumps(hdr["model_case"]) + "\n")
+    p = os.path.join(run.work, "replay.ndjson")
+    vk.run_driver(run, [driver, "--prop", prop, "--tag", tag, "--cases", cp, "--out", p], p)
+    r = vk.validate_trace(run, p, spec, cfg)
+    collect(run, [r])
+    run.traces = 1
+    run.samples += vk.sample_events(r["path"], 1)
+    return vk.finish(run, rule="replay of one TLC-emitted model case on the current /repo")
+
+
+def _wrap_replay(fn):
+    def g(run, replay=None):
+        if replay:
+            try:
+                with open(replay) as f:
+                    hdr = json.loads(f.readline())
+            except Exception:
+                hdr = {}
+            if "model_case" in hdr:
+                run.build_harness()
+                run.replay_of = replay
+                return replay_model_case(run, hdr)
+        return fn(run, replay)
+    return g
+
+
+for _k in list(PIPELINES):
+    PIPELINES[_k] = _wrap_replay(PIPELINES[_k])
